@@ -4,6 +4,7 @@
 package c08
 
 import (
+	"bufio"
 	"bytes"
 	"errors"
 	"fmt"
@@ -460,6 +461,18 @@ func TestOverlong(t *testing.T) {
 		}
 		if d := diffEvents(rs.events[:len(want)], want); d != "" {
 			vp.Fail(t, "c08.overlong", before, fmt.Errorf("over-long line: lines before it: %s", d))
+		}
+		// The same with a destination that is no HandleSet (line errors are
+		// then collected for the returned error): the failure of the scanner
+		// must not get lost among them, or the caller takes a truncated file
+		// for a complete one.
+		for _, dst := range []hostsfile.Set{hostsfile.FuncSet(func(*hostsfile.Record) {}), hostsfile.DiscardSet{}} {
+			vp.Eval("c08.overlong")
+			err = hostsfile.Parse(dst, strings.NewReader(data), nil)
+			if err == nil || !errors.Is(err, bufio.ErrTooLong) {
+				vp.Fail(t, "c08.overlong", before, fmt.Errorf("over-long line after %d other lines, destination %T: Parse returned %v, want an error that reports the scanner's failure (bufio.ErrTooLong)", len(before), dst, err))
+				break
+			}
 		}
 	}
 }
